@@ -253,6 +253,7 @@ fn perturb(t: &R, rng: &mut Rng) -> R {
                 K::Ge if rng.below(6) == 0 => K::Gt,
                 other => other.clone(),
             };
+            if *k != K::Let && n >= 2 && rng.below(10) == 0 { out.swap(n - 2, n - 1); }
             if *k == K::Let && n >= 3 && rng.below(8) == 0 {
                 // drop the last definition (groups of different size)
                 let m = (n - 1) / 2;
